@@ -97,7 +97,12 @@ def apply_edit(root, edit):
             return "anchor text not found in %s" % edit["file"]
         if cnt > 1 and not edit.get("all"):
             return "anchor text occurs %d times in %s" % (cnt, edit["file"])
-        new_src = src.replace(edit["old"], edit["new"])
+        if edit.get("word"):
+            import re
+
+            new_src = re.sub(re.escape(edit["old"]) + r"\b", edit["new"], src)
+        else:
+            new_src = src.replace(edit["old"], edit["new"])
     try:
         compile(new_src, str(p), "exec")
     except SyntaxError as e:
